@@ -17,6 +17,9 @@ class Q { public qubit q; public int tag = 4; public constructor() -> Q = defaul
 class T { @tracked public qubit q; public constructor() -> T = default; }
 class QC { public qubit q; public N tag; public constructor(int i) -> QC { this.tag = new N(i); } public function id() -> int { return this.tag.id; } }
 class TC { @tracked public qubit q; public N tag; public N tag2; public constructor(int i) -> TC { this.tag = new N(i); this.tag2 = new N(i + 1); this.tag.next = this.tag2; } public function id() -> int { return this.tag.id * 10 + this.tag.next.id; } }
+class QH { public qubit q; public int id; public constructor(int i) -> QH { this.id = i; } public destructor() -> void { echo("~QH" + this.id); } }
+class TH { @tracked public qubit q; public int id; public constructor(int i) -> TH { this.id = i; } public destructor() -> void { echo("~TH" + this.id); } }
+class CN { public CN next; public QH held; public TH theld; public D plain; public int id; public constructor(int i) -> CN { this.id = i; this.next = null; this.held = null; this.theld = null; this.plain = null; } }
 class J { public int k = 0; public constructor() -> J = default; public destructor() -> void { this.k = 1; this.k = 2; } }
 function mkqc(int i) -> QC { J j = new J(); return new QC(i); }
 function mktc(int i) -> TC { J j = new J(); return new TC(i); }
@@ -62,6 +65,11 @@ BODIES = {
     "qubit-temp-child": ["echo(mkqc(3).id());", "echo(mkqc(4).tag.id + burst(2));"],
     "qubit-temp-child-args": ["echo(qsum(mkqc(1), mkqc(2)));", "echo(qsum(new QC(3), mkqc(4)));"],
     "tracked-temp-child": ["echo(mktc(5).id());", "echo(mktc(6).tag.next.id + burst(1));"],
+    # objects (qubit-holding, tracked, plain with a destructor) reachable only from a dropped cycle
+    "cycle-owns-qubit-object": ["CN a = new CN(1);", "CN b = new CN(2);", "a.next = b;", "b.next = a;", "a.held = new QH(7);", "a = null;", "b = null;", "echo(\"dropped\");", "echo(burst(2));", "echo(\"end\");"],
+    "cycle-owns-tracked-object": ["CN a = new CN(1);", "CN b = new CN(2);", "a.next = b;", "b.next = a;", "b.theld = new TH(8);", "x(b.theld.q);", "measure b.theld.q;", "a = null;", "b = null;", "echo(\"dropped\");", "echo(burst(2));", "echo(\"end\");"],
+    "cycle-owns-plain-dtor-object": ["CN a = new CN(1);", "CN b = new CN(2);", "a.next = b;", "b.next = a;", "a.plain = new D(9);", "a = null;", "b = null;", "echo(\"dropped\");", "echo(burst(2));", "echo(\"end\");"],
+    "self-cycle-owns-qubit-object": ["CN a = new CN(1);", "a.next = a;", "a.held = new QH(3);", "h(a.held.q);", "a = null;", "echo(burst(1));", "QH keep = new QH(4);", "echo(keep.id);"],
     "pressure": ["echo(burst(18));", "N k = new N(9);", "echo(burst(18));", "echo(k.id);"],
     "pressure-args": ["echo(link(mk(burst(18)), mk(burst(18))));"],
     "list": ["N h = chain(5);", "echo(len(h));", "echo(burst(2));", "echo(len(h));", "h.next.next = null;", "echo(burst(2));", "echo(len(h));"],
@@ -98,9 +106,15 @@ _BUDGET = 4000
 
 def _base(name):
     src = program(name)
-    base = vdrv.run_src(src, gc="none", warn=0, want="tracked")
+    probe = vdrv.run_src(src, gc="none", warn=0, want="tracked")
+    if probe.crash or probe.rec is None:
+        return name, None, None, "the run without collections died: %s %s" % (probe.crash, probe["fd2"][:300])
+    # the last boundary is the collection execute() always performs before it returns (production forces it), so it is part of
+    # every schedule, including the reference one: "no collection while the program runs"
+    last = probe.rec["polls"] - 1
+    base = vdrv.run_src(src, gc="mask:%d" % last, warn=0, want="tracked")
     if base.crash or base.rec is None:
-        return name, None, None, "the run without collections died: %s %s" % (base.crash, base["fd2"][:300])
+        return name, None, None, "the run with only the end-of-run collection died: %s %s" % (base.crash, base["fd2"][:300])
     own = vdrv.run_src(src, gc="own", warn=0, want="tracked")
     ref = observe(base.rec)
     prob = None
@@ -124,11 +138,11 @@ def _chunk(item):
             if r1.crash:
                 bad.append((s, "interpreter died under this collection schedule: %s\n%s" % (r1.crash, r1["fd2"][:600])))
             elif observe(r1.rec) != ref or r1.rec["polls"] != K:
-                bad.append((s, "behaviour differs: without collections %r, with collections at statement boundaries %s: %r" % (ref, s, observe(r1.rec))))
+                bad.append((s, "behaviour differs: with no collection before the end of the run %r, with collections at statement boundaries %s: %r" % (ref, s, observe(r1.rec))))
         return name, bad, len(chunk)
     for s, rec in zip(chunk, recs):
         if observe(rec) != ref:
-            bad.append((s, "behaviour differs: without collections %r, with collections at statement boundaries %s: %r" % (ref, s, observe(rec))))
+            bad.append((s, "behaviour differs: with no collection before the end of the run %r, with collections at statement boundaries %s: %r" % (ref, s, observe(rec))))
         elif rec["polls"] != K:
             bad.append((s, "the number of statement boundaries changed from %d to %d under schedule %s" % (K, rec["polls"], s)))
     return name, bad, len(chunk)
@@ -162,9 +176,10 @@ def main(tier):
         d = 1
         while d < 6 and sum(math.comb(K, k) for k in range(1, d + 2)) <= _BUDGET:
             d += 1
-        scheds = list(schedules(K, _K0, d))
-        bounds[name] = "all subsets" if K <= _K0 else "<= %d collections (+ all)" % d
-        if K <= _K0:
+        # every schedule = a non-empty subset of the boundaries inside the run + the end-of-run collection (always performed)
+        scheds = [sc + [K - 1] for sc in schedules(K - 1, _K0, d)]
+        bounds[name] = "all subsets" if K - 1 <= _K0 else "<= %d collections (+ all)" % d
+        if K - 1 <= _K0:
             exhaustive_programs += 1
         for i in range(0, len(scheds), 32):
             items.append((name, K, ref, scheds[i:i + 32]))
